@@ -444,17 +444,29 @@ pub fn cmd_mut(args: &[String]) {
     }
 }
 
-const GRID: [usize; 12] = [
+const GRID: [usize; 24] = [
     0,
     1,
     2,
     3,
+    94,
+    95,
+    96,
     255,
     256,
     257,
+    999,
+    1000,
+    1001,
     65535,
     65536,
+    1 << 31,
+    (1 << 32) - 1,
     1 << 32,
+    (1 << 32) + 1,
+    1 << 33,
+    1 << 63,
+    (1 << 63) + 1,
     usize::MAX - 1,
     usize::MAX,
 ];
@@ -547,8 +559,8 @@ pub fn cmd_src(args: &[String]) {
             let len = rng.below(17) as usize;
             Ent::Arb(rng.bytes(len))
         };
-        let a = GRID[rng.below(12) as usize];
-        let b = GRID[rng.below(12) as usize];
+        let a = GRID[rng.below(24) as usize];
+        let b = GRID[rng.below(24) as usize];
         println!("{}", src_call("choose_index", a, 0, &ent));
         println!("{}", src_call("gen_range", a, b, &ent));
         println!("{}", src_call("gen_bytes", (a % 70000).min(300), 0, &ent));
